@@ -215,7 +215,10 @@ def mutate(c):
         if obj in c:
             c.remove(obj)
     elif mutation == "sort":
-        c.sort(key=id, reverse=True)
+        if any(isinstance(x, int) for x in c):
+            c.reverse()
+        else:
+            c.sort(key=id, reverse=True)
     elif mutation == "extend":
         c.extend([obj, obj])
     elif len(c) > 0:
@@ -277,15 +280,15 @@ def scenario(B, p):
         B.prove("the handed-out whitelist rejects assignment at both levels", out["blocked"] == 2)
         B.prove("the laws are unchanged after the rejected assignments", out["out_ok"])
         return
-    symbolic_assoc_state(B, verts, links, len(links), len(links) + 2, two_ended_wellformed=True)
+    symbolic_assoc_state(B, verts, links, len(links), len(links) + 3, two_ended_wellformed=True)
     for l in links:
         for e in B.items(B.get_field(l, "_vertices")):
             B.assume(B.not_(B.is_(e, None)), "ends are vertices")
     B.assume(inv01(B, verts, links), "Inv01(pre)")
     U = B.new("U", "Universe")
-    B.set_field(U, "_vertices", B.reflist("U.members", verts, 3, 4))
+    B.set_field(U, "_vertices", B.reflist("U.members", verts, 3, 6))
     for v in verts:
-        B.set_field(v, "_universes", B.reflist(B.label_of(v) + "._universes", [U], 1, 3))
+        B.set_field(v, "_universes", B.reflist(B.label_of(v) + "._universes", [U], 1, 4))
     B.assume(inv02(B, verts, [U]), "Inv02(pre)")
     v = verts[0]
     w = B.ref("w", verts)
